@@ -145,7 +145,7 @@ def run_contents(cfg, out):
         c.updates_per_step = 2
         sizes = T.sizes_for(run.C, r, cfg["tier"])
         if cfg["tier"] == "quick":
-            sizes = sizes[::2] + [r.randint(0, 8000) for _ in range(6)]
+            sizes = sizes + [r.randint(0, 8000) for _ in range(6)]
         fills = ["zeros", "ff", "text", "random"]
         for i, size in enumerate(sizes):
             for retry in (0, 1, -1):
@@ -171,6 +171,18 @@ def run_contents(cfg, out):
         healed = run.settle([c], min_ticks=40, horizon=30.0)
         context_check(run, [c])
         T.final_checks(run, [c], healed, horizon=30.0)
+        # "split and reassembled exactly for every size": a guaranteed message of any size must have arrived by now
+        if run.open(c):
+            for pid, rec in run.app.sends.items():
+                if rec["retry"] == -1 and rec["refused"] is None and rec["status_at_send"] == 2 and not rec.get("small"):
+                    if not run.app.deliveries.get(pid):
+                        if rec["len"] > run.C.Packet.MAX_PAYLOAD_SIZE and T.expired_signature(run, rec):
+                            run.c.inc("undelivered_known_context_expiry")
+                            continue
+                        run.report("C06", "size-never-reassembled", "payload of %d bytes (MTU %d) was never reassembled/delivered over a healed network; %s" % (
+                            rec["len"], cfg["mtu"], T.where_stuck(run, rec)), {"len": rec["len"], "mtu": cfg["mtu"]})
+                    else:
+                        run.c.inc("guaranteed_sizes_reassembled")
         out["counters"].inc("cases", n)
         if len(out["samples"]) < 1:
             out["samples"].append({"scenario": "contents", "mtu": cfg["mtu"], "lengths": sizes[:50], "fills": fills, "retry_modes": [0, 1, -1]})
